@@ -21,6 +21,95 @@ def _func(src, name, where):
     return re.sub(r"\s+", "", src[i:csrc.match_brace(src, i)])
 
 
+CNUM = {"INT8_MAX": 127, "INT8_MIN": -128, "INT16_MAX": 32767, "INT16_MIN": -32768, "UINT8_MAX": 255, "UINT16_MAX": 65535, "INT32_MAX": 2147483647}
+CBITS = {"uint8_t": 8, "int8_t": 8, "uint16_t": 16, "int16_t": 16}
+_N = r"(-?(?:0[xX][0-9A-Fa-f]+|\d+|U?INT(?:8|16|32)_(?:MAX|MIN)))"
+
+
+def _num(tok):
+    if tok in CNUM:
+        return CNUM[tok]
+    return int(tok, 0)
+
+
+def _upper(op, n):
+    """exclusive upper bound of the accepted range of `x <op> n` (accept when true)"""
+    return {"<": n, "<=": n + 1}[op]
+
+
+def bounds(tree):
+    """Operand-width bounds: every place where the compiler selects a short instruction form (8-bit / 16-bit operand
+    field) or rejects a program by comparing an index, a count or a value with a literal.  Returned as NUMBERS read
+    from the comparison actually written in the source (operator AND literal: `i <= 0x100` gives the exclusive bound
+    0x101), next to the width of the operand field the value is put into (from the cast / the shift in the same
+    statement); Props/C02 `operand_bounds_fit_fields` and `destructure_short_index_fits` must re-check with them.
+    ExtractError when the statement has no longer the recognised shape."""
+    comp = csrc.strip_comments(csrc.read(tree, "src/core/compile.c"))
+    spec = csrc.strip_comments(csrc.read(tree, "src/core/specials.c"))
+    emit = csrc.strip_comments(csrc.read(tree, "src/core/emit.c"))
+    cfun = csrc.strip_comments(csrc.read(tree, "src/core/cfuns.c"))
+    out = {}
+
+    def need(m, what):
+        if not m:
+            raise ExtractError("operand-width bound not recognised: " + what)
+        return m
+    # the definition of destructure(), not its prototype
+    m = None
+    for mm in re.finditer(r"^static\s+int\s+destructure\s*\(", spec, re.M):
+        j = mm.end()
+        k = min([x for x in (spec.find(";", j), spec.find("{", j)) if x >= 0] or [-1])
+        if k >= 0 and spec[k] == "{":
+            m = k
+    if m is None:
+        raise ExtractError("definition of destructure() not found in specials.c")
+    de = re.sub(r"\s+", "", spec[m:csrc.match_brace(spec, m)])
+    m = need(re.search(r"if\(i(<=|<)" + _N + r"\)\{janetc_emit_ssu\(c,JOP_GET_INDEX,nextright,right,\((u?int\d+_t)\)i,1\);\}"
+                       r"else\{JanetSlotk=janetc_cslot\(janet_wrap_integer\(i\)\);janetc_emit_sss\(c,JOP_IN,nextright,right,k,1\);\}", de),
+             "destructure(): if (i < 0x100) GET_INDEX (uint8_t) i else IN constant key")
+    out["destructureShortIndexBound"] = _upper(m.group(1), _num(m.group(2)))
+    out["destructureShortIndexBits"] = CBITS[m.group(3)]
+    # emit_ssu puts `rest` at bit 24 of a 32-bit word: 8 bits
+    e3 = _func(emit, "emit2s", "emit.c")
+    m = need(re.search(r"janetc_emit\(c,op\|\(reg1<<8\)\|\(reg2<<16\)\|\(\(uint32_t\)rest<<(\d+)\)\);", e3), "emit2s: rest << 24")
+    out["emit2sRestBits"] = 32 - int(m.group(1))
+    ci = _func(cfun, "can_be_imm", "cfuns.c")
+    m = need(re.search(r"if\(integer>" + _N + r"\|\|integer<" + _N + r"\)return0;", ci), "can_be_imm: integer > INT8_MAX || integer < INT8_MIN")
+    out["immMax"], out["immMin"] = _num(m.group(1)), _num(m.group(2))
+    m = need(re.search(r"\*out=\((u?int\d+_t)\)integer;", ci), "can_be_imm: *out = (int8_t) integer")
+    out["immBits"] = CBITS[m.group(1)]
+    lc = _func(emit, "janetc_loadconst", "emit.c")
+    m = need(re.search(r"if\(dval<" + _N + r"\|\|dval>" + _N + r"\)gotodo_constant;", lc), "janetc_loadconst: dval < INT16_MIN || dval > INT16_MAX")
+    out["loadIntMin"], out["loadIntMax"] = _num(m.group(1)), _num(m.group(2))
+    m = need(re.search(r"\(iu<<(\d+)\)\|\(reg<<8\)\|JOP_LOAD_INTEGER", lc), "janetc_loadconst: (iu << 16) | (reg << 8) | JOP_LOAD_INTEGER")
+    out["loadIntBits"] = 32 - int(m.group(1))
+    rn = _func(emit, "janetc_regnear", "emit.c")
+    m = need(re.search(r"if\(s\.envindex<0&&s\.index>=0&&s\.index(<=|<)" + _N + r"\)\{returns\.index;\}", rn), "janetc_regnear: s.index <= 0xFF")
+    out["nearSlotBound"] = _upper(m.group(1), _num(m.group(2)))
+    gt = _func(comp, "janetc_gettarget", "compile.c")
+    m = need(re.search(r"opts\.hint\.index>=0&&opts\.hint\.index(<=|<)" + _N + r"\)", gt), "janetc_gettarget: hint.index <= 0xFF")
+    out["nearHintBound"] = _upper(m.group(1), _num(m.group(2)))
+    rs = _func(comp, "janetc_resolve", "compile.c")
+    m = need(re.search(r"if\(ret\.index(>=|>)" + _N + r"\)\{janetc_cerror\(c,\"cannotcapturelocalinclosure", rs), "janetc_resolve: ret.index > 0xFF rejected")
+    out["upvalueIndexBound"] = _num(m.group(2)) + (1 if m.group(1) == ">" else 0)
+    af = _func(emit, "janetc_allocfar", "emit.c")
+    m = need(re.search(r"if\(reg(>=|>)" + _N + r"\)\{janetc_cerror", af), "janetc_allocfar: reg > 0xFFFF rejected")
+    out["farRegisterBound"] = _num(m.group(2)) + (1 if m.group(1) == ">" else 0)
+    kc = _func(emit, "janetc_const", "emit.c")
+    m = need(re.search(r"if\(len(>=|>)" + _N + r"\)\{janetc_cerror\(c,\"toomanyconstants\"\);", kc), "janetc_const: len >= 0xFFFF rejected")
+    out["constIndexBound"] = _num(m.group(2)) + (1 if m.group(1) == ">" else 0)
+    sl = _func(emit, "janetc_emit_sl", "emit.c")
+    m = need(re.search(r"if\(jump<" + _N + r"\|\|jump>" + _N + r"\)\{janetc_cerror", sl), "janetc_emit_sl: jump < INT16_MIN || jump > INT16_MAX rejected")
+    out["labelJumpMin"], out["labelJumpMax"] = _num(m.group(1)), _num(m.group(2))
+    iff = _func(spec, "janetc_if", "specials.c")
+    m = need(re.search(r"if\(\(labelr-labeljr\)>" + _N + r"\|\|\(labeld-labeljd\)>" + _N + r"\)\{", iff), "janetc_if: jump range check")
+    out["ifCondJumpMax"], out["ifJumpMax"] = _num(m.group(1)), _num(m.group(2))
+    whl = _func(spec, "janetc_while", "specials.c")
+    m = need(re.search(r"if\(\(!infinite&&\(labeld-labelc\)>" + _N + r"\)\|\|\(labeljt-labelwt\)>" + _N + r"\)\{", whl), "janetc_while: jump range check")
+    out["whileCondJumpMax"], out["whileJumpMax"] = _num(m.group(1)), _num(m.group(2))
+    return out
+
+
 def extract(tree):
     comp = csrc.strip_comments(csrc.read(tree, "src/core/compile.c"))
     spec = csrc.strip_comments(csrc.read(tree, "src/core/specials.c"))
@@ -90,5 +179,9 @@ def render(tree):
         out.append("abbrev %s : Bool := %s" % (k, "true" if v else "false"))
     out.append("")
     out.append("abbrev allShapes : Bool := %s" % " && ".join(flags.keys()))
+    out += ["", "/-! operand-width bounds: the literal AND the comparison operator as written in the source (exclusive `…Bound`,",
+            "inclusive `…Min` / `…Max`), and the width of the operand field the value is stored in -/"]
+    for k, v in bounds(tree).items():
+        out.append("abbrev %s : %s := %s" % (k, "Int" if (k.endswith("Min") or k.endswith("Max")) else "Nat", ("(%d)" % v) if v < 0 else str(v)))
     out += ["", "end JanetModel.Gen.Compile", ""]
     return "\n".join(out)
